@@ -18,6 +18,9 @@ type Val struct {
 	Tuple []Val
 	LV    *LValue
 	Clos  *Closure
+	// spec evaluation only: the value is (part of) the content of heap object OwnRef; OwnEntry is the same part of
+	// the function-entry content of that object (allocation facts for pointers nested in struct-valued fields)
+	OwnRef, OwnEntry string
 }
 
 type PathElem struct {
